@@ -244,9 +244,7 @@ def body(check):
     for c in ["extrapol2", "extrapolk", "centered", "fromm", "quick", "extrapol3"]:
         check.guarded("KAPPA-STENCIL", "xnum." + c, lambda: kappa_stencil(check, proj, c))
     check.guarded("KAPPA-SIBLING", "xnum.extrapol2", lambda: sibling(check, proj))
-    try:
-        from .c15 import kappa_2d
-    except ImportError:
-        kappa_2d = None
-    if kappa_2d is not None:
-        kappa_2d(check)
+    from . import c15
+    if check.guarded("LAYOUT-AGREE", "modeldisc.fvm2dcart", lambda: c15.layout_agree(check)):
+        check.guarded("KAPPA-2D", "xnum.extrapol2dk", lambda: c15.kappa_2d(check))
+        check.guarded("ROW-1D-AGREE", "xnum.extrapol2d*", lambda: c15.row_1d_agree(check))
